@@ -7,7 +7,21 @@ class StrSub(str):
     pass
 
 
-OTHERS = {"none": None, "int": 5, "bytes": b"ACD", "list": ["A"], "strsub": StrSub("ACD"), "float": 1.5, "tuple": ("A", "C")}
+class StrLike(object):
+    """not a string, but str() of it spells residues"""
+    def __str__(self):
+        return "MKDE"
+
+
+def _seqobj():
+    from localcider.backend.sequence import Sequence
+    return Sequence("ACDE")
+
+
+OTHERS = {"none": None, "int": 5, "bytes": b"ACD", "list": ["A"], "strsub": StrSub("ACD"), "float": 1.5, "tuple": ("A", "C"),
+          # non-strings whose str() happens to spell amino-acid letters
+          "false": False, "true": True, "nan": float("nan"), "inf": float("inf"), "strlike": StrLike(), "seqobj": _seqobj,
+          "dict": {"A": 1}, "set": {"A"}, "complex": 1j, "zero": 0}
 
 
 def _tmp(state):
@@ -35,13 +49,35 @@ def eval_ext(toks, state):
         text = real.unhex6(toks[1]) if len(toks) > 1 else ""
         return real.query(SP(text), "seq", [])
     if op == "mkother":
-        return real.query(SP(OTHERS[toks[1]]), "seq", [])
+        v = OTHERS[toks[1]]
+        return real.query(SP(v() if callable(v) and not isinstance(v, StrLike) else v), "seq", [])
     if op == "mkq":
         return real.query(SP(real.unhex6(toks[1])), toks[2], toks[3:])
     if op == "parse":
         from localcider.backend.seqfileparser import SequenceFileParser
         text = real.unhex6(toks[1]) if len(toks) > 1 else ""
         return ("str", SequenceFileParser().parseSeqFile(write_file(state, text)))
+    if op == "childq":
+        # childq <how> SEQ [i j] <query> [args]: the query is put to an object that was NOT built from a string but handed back by a
+        # move / shuffle of the library; its answers must be those of the sequence it holds
+        from localcider.backend.sequence import Sequence
+        import io, contextlib
+        how, seq = toks[1], toks[2]
+        with contextlib.redirect_stdout(io.StringIO()):
+            if how == "swap":
+                child, rest = SP(SeqObj=Sequence(seq).swapRes(int(toks[3]), int(toks[4]))), toks[5:]
+            elif how == "swapcharge":
+                child, rest = SP(SeqObj=Sequence(seq).swapRandChargeRes()), toks[3:]
+            elif how == "shuffle":
+                child, rest = SP(seq).get_shuffled_sequence(), toks[3:]
+            elif how == "backendshuffle":
+                child, rest = SP(SeqObj=Sequence(seq).full_shuffle()), toks[3:]
+            elif how == "permutant":
+                from localcider.sequencePermutants import SequencePermutants
+                child, rest = SequencePermutants(seq).get_permutant(), toks[3:]
+            else:
+                raise KeyError(how)
+        return ("childq", child.get_sequence(), " ".join(rest), real.query(child, rest[0], rest[1:]))
     if op == "parse2":
         # one parser object reused for every parse2 line of the block (parsing must not depend on earlier files)
         from localcider.backend.seqfileparser import SequenceFileParser
